@@ -178,7 +178,7 @@ def write_evidence(ctx, res, nviol):
         "tree": REPO,
         "notes": res.notes,
     }
-    d = os.path.join(VERIF, "evidence")
+    d = os.environ.get("VERIF_EVIDENCE_DIR") or os.path.join(VERIF, "evidence")
     if not os.path.isdir(d):
         os.makedirs(d)
     tmp = os.path.join(d, ".%s.json.tmp" % ctx.prop)
@@ -192,7 +192,7 @@ def write_evidence(ctx, res, nviol):
 
 
 def write_replay(prop, case, idx):
-    d = os.path.join(VERIF, "replays", prop)
+    d = os.path.join(os.environ.get("VERIF_REPLAY_DIR") or os.path.join(VERIF, "replays"), prop)
     if not os.path.isdir(d):
         os.makedirs(d)
     name = "%s_%s_%02d.json" % (prop, digest(case)[:10], idx)
